@@ -101,6 +101,11 @@ class M:
         self.corr = model.correlation.to_numpy().astype(float)
         with np.errstate(all='ignore'):
             self.cond = float(np.linalg.cond(self.corr))
+        try:                                   # scipy's verdict on the stored correlation = the symbol SINGULAR
+            stats.multivariate_normal(mean=None, cov=self.corr, allow_singular=False)
+            self.singular = False
+        except Exception:  # noqa
+            self.singular = True
         self.kde = any(type(u).__name__ == 'GaussianKDE' or type(getattr(u, '_instance', None)).__name__ == 'GaussianKDE'
                        for u in model.univariates)
         self.id = digest(train, [tok(l) for l in labels], fams)
@@ -266,7 +271,8 @@ def wire(c):
 
 
 def request(op, m, c, fitted=True, dcorr=None):
-    return ' '.join(['gt', op, '1' if fitted else '0', str(m.d if dcorr is None else dcorr), str(m.d)] +
+    return ' '.join(['gt', op, '1' if fitted else '0', '1' if m.singular else '0',
+                     str(m.d if dcorr is None else dcorr), str(m.d)] +
                     [tok(l) for l in m.labels] + wire(c))
 
 
@@ -367,8 +373,8 @@ def lean_dens(lean, m, op, c, fitted=True, dcorr=None):
             flag, k = ws[i + 1] == '1', int(ws[i + 2])
             i += 3
         elif sym == 'MVNCDF':
-            flag, k = None, int(ws[i + 1])
-            i += 2
+            flag, k = ws[i + 1] == '1', int(ws[i + 2])
+            i += 3
         else:
             return ('bad', f'bad rterm token {sym!r}')
         row = []
@@ -384,14 +390,17 @@ def lean_dens(lean, m, op, c, fitted=True, dcorr=None):
     if len(heads) != 1:
         return ('bad', f'non-uniform row plans {sorted(heads)}')
     logs, sym, flag, k = heads.pop()
-    with np.errstate(all='ignore'):
-        Z = eval_matrix(m.model, rows)
-        if sym == 'MVNPDF':
-            v = stats.multivariate_normal.pdf(Z, cov=m.model.correlation, allow_singular=flag)
-        else:
-            v = stats.multivariate_normal.cdf(Z, cov=m.model.correlation)
-        for _ in range(logs):
-            v = np.log(v)
+    try:
+        with np.errstate(all='ignore'):
+            Z = eval_matrix(m.model, rows)
+            if sym == 'MVNPDF':
+                v = stats.multivariate_normal.pdf(Z, cov=m.model.correlation, allow_singular=flag)
+            else:
+                v = stats.multivariate_normal.cdf(Z, cov=m.model.correlation, allow_singular=flag)
+            for _ in range(logs):
+                v = np.log(v)
+    except Exception as e:  # noqa    an external symbol raised on arguments the model deemed acceptable
+        return ('err', 'external:' + vc.exc_kind(e))
     return ('ok', np.atleast_1d(np.asarray(v, dtype=float)))
 
 
@@ -411,12 +420,13 @@ class Track:
             ctx.ob(name, name not in self.bad, 'tie', self.bad.get(name) or f'{self.n.get(name, 0)} comparisons')
 
 
-def cmp_res(real, model, mode, detail):
-    """mode: 'bits' | ('abs', tol)."""
+def cmp_res(real, model, mode, detail, anyerr=False):
+    """mode: 'bits' | ('abs', tol).  anyerr: only THAT it raises is compared (scipy's exception type for a
+    score matrix of the wrong width depends on the dimension: IndexError for d = 2, ValueError above)."""
     if real[0] != model[0]:
-        return False, dict(detail, real=f'{real[0]}:{str(real[1])[:80]}', model=f'{model[0]}:{str(model[1])[:80]}')
+        return False, dict(detail, real_result=f'{real[0]}:{str(real[1])[:80]}', model_result=f'{model[0]}:{str(model[1])[:80]}')
     if real[0] == 'err':
-        return real[1] == model[1], dict(detail, real=real[1], model=model[1])
+        return anyerr or real[1] == model[1], dict(detail, real_result=real[1], model_result=model[1])
     if real[0] == 'bad':
         return False, dict(detail, driver=model[1])
     a, b = real[1], model[1]
@@ -546,7 +556,7 @@ def malformed(ctx, lean, m, rng, nr, tr):
         for op, meth, mode in (('pdf', 'probability_density', 'bits'), ('logpdf', 'log_probability_density', 'bits'),
                                ('cdf', 'cumulative_distribution', ('abs', EPS_CDF))):
             real = call(lambda: getattr(m.model, meth)(X))
-            ok, dd = cmp_res(real, lean_dens(lean, m, op, c), mode, dict(det, op=op))
+            ok, dd = cmp_res(real, lean_dens(lean, m, op, c), mode, dict(det, op=op), anyerr=(op == 'cdf'))
             tr.note(name, ok, dd)
             ctx.count(f'malformed.{op}.{real[0] if real[0] == "ok" else real[1]}')
             ctx.case((m.id, op, kind, digest(rows)), nontrivial=True)
@@ -619,9 +629,18 @@ def inp_of(m, form, X, rows):
 
 def oracles(ctx, models, rng, nr, nbatch, deep):
     checks = 0
-    for m in models:
+    for mi, m in enumerate(models):
         mdl = m.model
         logtol = 1e-8 * max(1.0, m.cond)
+        if mi == 0 or (m.singular and mi < 8):
+            # a batch of size 0
+            empty = pd.DataFrame(np.empty((0, m.d)), columns=m.labels)
+            for meth in ('probability_density', 'log_probability_density', 'cumulative_distribution'):
+                r = call(lambda: getattr(mdl, meth)(empty))
+                checks += 1
+                if not (r[0] == 'ok' and r[1].size == 0) and not (meth == 'cumulative_distribution' and m.singular):
+                    ctx.fail_input(meth, inp_of(m, 'empty-frame', empty, np.empty((0, m.d))), r[1],
+                                   'an empty result for a batch of size 0', f'{meth}:raises[empty batch]')
         for b in range(nbatch):
             n = batch_sizes(rng, deep)
             rows, far = gen_rows(rng, nr, m, n, rng.choice(['train', 'jitter', 'far', 'mixed', 'mixed']))
@@ -716,7 +735,14 @@ def oracles(ctx, models, rng, nr, nbatch, deep):
             sub = rows[:k]
             c0 = call(lambda: mdl.cumulative_distribution(pd.DataFrame(sub, columns=m.labels)))
             checks += 1
-            if c0[0] != 'ok' or c0[1].shape != (k,) or not np.all((c0[1] >= -1e-4) & (c0[1] <= 1 + 1e-4)):
+            if c0[0] != 'ok':
+                ctx.fail_input('cumulative_distribution', dict(inp_of(m, 'frame', base, sub), cond=m.cond,
+                                                               correlation=vc.jsonable(m.corr)), c0[1],
+                               'a CDF value in [0,1] for every finite query point of every fitted model',
+                               'cumulative_distribution:raises[near-singular correlation]' if m.singular
+                               else 'cumulative_distribution:raises')
+                continue
+            if c0[1].shape != (k,) or not np.all((c0[1] >= -1e-4) & (c0[1] <= 1 + 1e-4)):
                 ctx.fail_input('cumulative_distribution', inp_of(m, 'frame', base, sub), c0[1],
                                'values in [0,1], one per row', 'cumulative_distribution:range')
                 continue
